@@ -831,7 +831,14 @@ class SymNP:
 
     # predicates / reductions -------------------------------------------
     @staticmethod
+    def isin(a, b):
+        bl = [_conc_int(x) for x in _elems(b)]
+        return SArr([_conc_int(x) in bl for x in _elems(a)], bool)
+
+    @staticmethod
     def isnan(a):
+        if hasattr(a, "__symarray__"):
+            a = a.__symarray__()
         if isinstance(a, SArr):
             return a._map(_isnan1, bool)
         if isinstance(a, (real_np.ndarray, list)):
